@@ -78,7 +78,7 @@ theorem model_eq_reference (h : List Op) (hb : histSize h < 2147483648) :
 /-- the gauge of every resource is the number of admitted and not yet exited entries, after every history -/
 theorem gauge_eq_inflight (h : List Op) (hb : histSize h < 2147483648) (res : String) :
     (run {} h).1.gauge res = inflight (run {} h).1.live res := by
-  obtain ⟨⟨_, _, _, hl, hg, _⟩, _⟩ := reach h [] hb
+  obtain ⟨⟨_, hl, hg, _⟩, _⟩ := reach h [] hb
   rw [hg, hl]
 
 /-- **the property's first sentence, history form**: after any history, a request of batch `b` on `res` is admitted iff
@@ -87,7 +87,7 @@ theorem admitted_iff_inflight (h : List Op) (hb : histSize h + 1 < 2147483648) (
     (hid : isLive (run {} h).1.live id = false) :
     (step (run {} h).1 (.entry id res b)).2 = .pass ↔
       ∀ r ∈ rulesOf (run {} h).1.rules res, inflight (run {} h).1.live res + b.toNat ≤ r.thr.toNat := by
-  obtain ⟨⟨_, _, _, hl, hg, _⟩, hlen⟩ := reach h [] (by omega)
+  obtain ⟨⟨_, hl, hg, _⟩, hlen⟩ := reach h [] (by omega)
   have hle := inflight_le (specRun {} h).1.live res
   rw [← admit_iff_nat _ _ (by rw [hl]; omega) b]
   simp only [step, hid, Bool.false_eq_true, if_false]
@@ -106,7 +106,7 @@ theorem cap (rs : List (String × UInt32)) (h : List Op) (z : Nat)
   intro p hp res r hr
   obtain ⟨t, rfl⟩ := hp
   rw [histSize_append] at hb
-  obtain ⟨⟨_, _, _, _, hg, _⟩, _⟩ := reach p (loadRules rs) (by omega)
+  obtain ⟨⟨_, _, hg, _⟩, _⟩ := reach p (loadRules rs) (by omega)
   have hc := specRun_cap z p { rules := loadRules rs }
     (fun o ho => hseq o (List.mem_append_left _ ho))
     (fun id res b hm => hz id res b (List.mem_append_left _ hm))
@@ -146,7 +146,7 @@ theorem freed_capacity_reusable (h : List Op) (hb : histSize h + 1 < 2147483648)
     ((step (step (run {} h).1 (.exit id)).1 (.entry id' res b)).2 = .pass ↔
       ∀ r ∈ rulesOf (run {} h).1.rules res, (inflight (run {} h).1.live res - 1) + b.toNat ≤ r.thr.toNat) := by
   have hrun := run_snoc {} h (.exit id)
-  obtain ⟨⟨_, _, _, hl, hg, hn⟩, hlen⟩ := reach h [] (by omega)
+  obtain ⟨⟨_, hl, hg, hn⟩, hlen⟩ := reach h [] (by omega)
   have hres := resOfId_of_mem _ id res (by rw [hl]; exact hn) hlive
   have hg1 : (step (run {} h).1 (.exit id)).1.gauge res = (run {} h).1.gauge res - 1 := by
     simp only [step, hres, if_true]
@@ -365,40 +365,37 @@ end Sentinel.C04
 namespace Sentinel.C04
 open Sentinel.Iso
 
-/-! ## Which list is enforced: the latest load — except through a reused caller slice (known finding `loadres-raw-slice-alias`)
+/-! ## Which list is enforced: the latest load, whatever slice the caller used (fixed finding `loadres-raw-slice-alias`, `26e3af6`)
 
-`SpecSt.ideal` is the list the property means: every `load` / `loadres` replaces what it says it replaces.  The rule manager of the
-code (`rules`, with `raw`/`ali` = `currentRules`) agrees with it as long as every `LoadRulesOfResource` call takes effect. -/
+`SpecSt.ideal` is the list the property means: every `load` / `loadres` replaces what it says it replaces, in-place edits (`poke`) apply.
+`Op.loadres true …` is a call through the caller's one reused slice (`sloadres`), `false` a fresh slice per call. -/
 
-/-- the full statement: after every history the enforced rules of every resource are those of the latest loads -/
-def enforced_is_latest_load_statement : Prop :=
-  ∀ h : List Op, ∀ res, rulesOf (specRun {} h).1.rules res = rulesOf (specRun {} h).1.ideal res
-
-/-- **witness** (code as it is): threshold 2 loaded through the caller's slice, then threshold 1 through the same slice: the second
-    load is compared with itself, reported "unchanged" and ignored — two entries are in flight under the latest threshold 1. -/
-theorem loadres_alias_witness :
-    (run {} [.loadres true "d" [2], .loadres true "d" [1], .entry 1 "d" 1, .entry 2 "d" 1]).2 = [.none, .none, .pass, .pass] ∧
-    rulesOf (specRun {} [.loadres true "d" [2], .loadres true "d" [1]]).1.rules "d" = [{ idx := 0, thr := 2 }] ∧
-    rulesOf (specRun {} [.loadres true "d" [2], .loadres true "d" [1]]).1.ideal "d" = [{ idx := 0, thr := 1 }] := by
-  decide
-
-theorem enforced_is_latest_load_statement_false : ¬ enforced_is_latest_load_statement := by
-  intro h
-  have := h [.loadres true "d" [2], .loadres true "d" [1]] "d"
-  revert this
-  decide
-
-/-- **partial**: if every `LoadRulesOfResource` call of the history takes effect (`storesAlong`: no call through the reused slice hits
-    its own alias; a fresh slice per call, `load`, `clearres` and in-place edits are unrestricted), the enforced list **is** the list
-    of the latest loads — for the gauge machine the driver runs (`run`) as for the reference. -/
-theorem enforced_is_latest_load_partial (h : List Op) (hb : histSize h < 2147483648) (hst : storesAlong {} h = true) :
+/-- **enforced_is_latest_load** (full strength, repaired code): after every history — including reloads of a resource through one
+    reused caller slice, with any number of rules, interleaved with other resources, clears, `LoadRules` and in-place edits — the rule
+    list the gauge machine checks against is the list of the latest loads. -/
+theorem enforced_is_latest_load (h : List Op) (hb : histSize h < 2147483648) :
     (run {} h).1.rules = (specRun {} h).1.ideal := by
-  obtain ⟨⟨hr, _, _, _, _, _⟩, _⟩ := reach h [] hb
+  obtain ⟨⟨hr, _, _, _⟩, _⟩ := reach h [] hb
   rw [hr]
-  exact specRun_ideal h {} rfl hst
+  exact specRun_ideal h {} rfl
 
-/-- the hypothesis is satisfiable with the reused slice in play: different lengths, other resources, clears in between -/
-example : storesAlong {} [.loadres true "a" [2], .loadres true "b" [5], .loadres true "a" [1, 3], .loadres false "a" [],
-    .loadres true "a" [4], .load [("a", 2)], .loadres true "a" [7]] = true := by decide
+/-- in particular a reload through the reused slice with the same number of rules takes effect: the case the pinned code ignored -/
+theorem slice_reuse_reload_takes_effect :
+    (run {} [.loadres true "d" [2], .entry 1 "d" 1, .loadres true "d" [1], .entry 2 "d" 1]).2 = [.none, .pass, .none, .block 0 1] := by
+  decide
+
+/-- **witness for the fixed finding `loadres-raw-slice-alias`** (about the code before `26e3af6`, `rmLoadResOld`): threshold 2 loaded
+    through the caller's slice, then threshold 1 through the same slice: the second load was compared with itself, reported "unchanged"
+    and ignored — threshold 2 stayed enforced. -/
+theorem loadres_alias_witness :
+    rulesOf (rmLoadResOld (rmLoadResOld { rules := [], raw := [], ali := [] } true "d" [2]) true "d" [1]).rules "d"
+      = [{ idx := 0, thr := 2 }] := by
+  decide
+
+/-- … while with a fresh slice per call the pinned code did update (what was true of it) -/
+theorem loadres_alias_fresh_slice_partial (m : RM) (res : String) (ths : List UInt32) :
+    (rmLoadResOld m false res ths).rules = loadResRules m.rules res ths := by
+  unfold rmLoadResOld
+  by_cases h : ths.isEmpty = true <;> simp [h]
 
 end Sentinel.C04
